@@ -9,3 +9,8 @@ package cache
 // pass a positive TTL (ttlcache keeps an entry with ttl <= 0 forever).
 //@ iface (Cache).Set
 //@   requires ttl > 0
+
+// C05: which keys come from the cache (ghost log cget)
+//@ iface (Cache).Get
+//@   props C05
+//@   logged cget
